@@ -235,11 +235,11 @@ def bounded(tier, seed):
     for kind, factory in F.items():
         n0 = col.evaluations
         if kind in ("NoCache", "MemoryCache"):
-            qs = SPECIAL + ext_queries + allq[:: (9 if tier == "quick" else 1)]
+            qs = SPECIAL + ext_queries + allq[:: (9 if tier == "quick" else 3)]
         elif kind in ("FileCache", "SQLCache.from_sqlite", "StoreCache(MemoryStore)"):
-            qs = SPECIAL + ext_queries[::6] + rnd.sample(allq, 30 if tier == "quick" else 600)
+            qs = SPECIAL + ext_queries[::6] + rnd.sample(allq, 30 if tier == "quick" else 300)
         else:
-            qs = SPECIAL[:: (2 if tier == "quick" else 1)] + rnd.sample(allq, 8 if tier == "quick" else 300)
+            qs = SPECIAL[:: (2 if tier == "quick" else 1)] + rnd.sample(allq, 8 if tier == "quick" else 100)
         for q in qs:
             check_query(col, kind, factory, q, with_store=(kind in ("NoCache", "MemoryCache", "FileCache")))
         standins.append(M.standin("%s: returned / cached / stored metadata vs reference" % kind,
